@@ -373,10 +373,11 @@ where
         );
         let new_range = range.start + next_in_offset..range.end;
         range = new_range;
-        if result {
+        if result && state.is_finished() {
             compression_result = Ok(out_offset);
             break;
-        } else if available_out == 0 {
+        } else if result || available_out == 0 {
+            // the buffer is full (or the stream cannot make progress): not a complete stream
             compression_result = Err(BrotliEncoderThreadError::InsufficientOutputSpace); // mark no space??
             break;
         }
